@@ -188,6 +188,60 @@ func blocksDigest(bs []eth.Block) string {
 	return strings.Join(out, "|")
 }
 
+// contentCheck: every receipt, log and trace of an accepted reply sits on the block and transaction the
+// node's own chain has it on, unchanged (for replies whose items are the node's honest items, in
+// whatever order they arrived)
+func contentCheck(bs []eth.Block, chain *simnode.Chain, flt *glf.Filter) string {
+	for i := range bs {
+		n := bs[i].Num()
+		if n >= uint64(len(chain.Blocks)) {
+			return fmt.Sprintf("block %d is not on the chain", n)
+		}
+		cb := &chain.Blocks[n]
+		for j := range bs[i].Txs {
+			t := &bs[i].Txs[j]
+			if uint64(t.Idx) >= uint64(len(cb.Txs)) {
+				return fmt.Sprintf("block %d: transaction index %d does not exist", n, uint64(t.Idx))
+			}
+			ct := &cb.Txs[t.Idx]
+			if flt.UseBlocks && !bytes.Equal(t.PrecompHash, ct.Hash) {
+				return fmt.Sprintf("block %d tx %d: carries the hash of another transaction", n, uint64(t.Idx))
+			}
+			if flt.UseReceipts && (uint64(t.GasUsed) != ct.GasUsed || byte(t.Status) != ct.Status || !bytes.Equal(t.ContractAddress, ct.ContractAddress)) {
+				return fmt.Sprintf("block %d tx %d: receipt fields are those of another transaction (gasUsed %d, the node has %d)", n, uint64(t.Idx), uint64(t.GasUsed), ct.GasUsed)
+			}
+			for _, l := range t.Logs {
+				found := false
+				for _, cl := range ct.Logs {
+					if cl.Idx == uint64(l.Idx) {
+						found = bytes.Equal(cl.Addr, l.Address) && bytes.Equal(cl.Data, l.Data)
+					}
+				}
+				if !found {
+					return fmt.Sprintf("block %d tx %d: log %d is not a log of this transaction (or is altered)", n, uint64(t.Idx), uint64(l.Idx))
+				}
+			}
+			if flt.UseTraces {
+				if len(t.TraceActions) != len(ct.Traces) {
+					return fmt.Sprintf("block %d tx %d: %d trace actions, the node has %d", n, uint64(t.Idx), len(t.TraceActions), len(ct.Traces))
+				}
+				for _, a := range t.TraceActions {
+					found := false
+					for _, ca := range ct.Traces {
+						if bytes.Equal(ca.From, a.From) && bytes.Equal(ca.To, a.To) && ca.Value.Eq(&a.Value) {
+							found = true
+						}
+					}
+					if !found {
+						return fmt.Sprintf("block %d tx %d: a trace action of another transaction", n, uint64(t.Idx))
+					}
+				}
+			}
+		}
+	}
+	return "ok"
+}
+
 // sortLogs canonicalises a digest for comparisons ACROSS requests: the order in which logs were
 // attached to a transaction is not part of what a request returns (Logs.Add keeps the first-seen
 // order, and items of an earlier, partly processed response stay attached to the cached block)
@@ -237,6 +291,48 @@ var corruptions = []corruption{
 		}
 		delete(ex.Responses[i], "result")
 		ex.Responses[i]["error"] = map[string]any{"code": -32000, "message": "boom"}
+		return true
+	}},
+	{"error-member-positive-code", func(ex *simnode.Exchange, i int, r *core.Rand) bool {
+		// an error object whose code is positive (geth's 3 "execution reverted", a provider's 429 inside a 200 reply)
+		if i >= len(ex.Responses) {
+			return false
+		}
+		delete(ex.Responses[i], "result")
+		ex.Responses[i]["error"] = map[string]any{"code": core.Pick(r, []int{3, 429, 1}), "message": "boom"}
+		return true
+	}},
+	{"error-member-next-to-result", func(ex *simnode.Exchange, i int, r *core.Rand) bool {
+		// "add an error member": the element keeps its result and ALSO carries an error object
+		if i >= len(ex.Responses) {
+			return false
+		}
+		ex.Responses[i]["error"] = map[string]any{"code": core.Pick(r, []int{3, 429, -32000, -1, 1, -32603}), "message": "boom"}
+		return true
+	}},
+	{"reorder-items", func(ex *simnode.Exchange, i int, r *core.Rand) bool {
+		// the items of ONE result (receipts of a block, logs of a range, traces of a block) arrive in
+		// another order; each still names its block and transaction
+		if i >= len(ex.Responses) {
+			return false
+		}
+		arr := resultArr(ex.Responses[i])
+		if len(arr) < 2 {
+			return false
+		}
+		if _, ok := arr[0].(map[string]any); !ok {
+			return false
+		}
+		out := make([]any, len(arr))
+		if r.Bool() {
+			for k := range arr {
+				out[len(arr)-1-k] = arr[k]
+			}
+		} else {
+			copy(out, arr[1:])
+			out[len(arr)-1] = arr[0]
+		}
+		ex.Responses[i]["result"] = out
 		return true
 	}},
 	{"null-result", func(ex *simnode.Exchange, i int, r *core.Rand) bool {
@@ -403,6 +499,7 @@ func runC07(e *core.Env) error {
 		return s
 	}
 	var lastClient *jrpc2.Client
+	var lastBlocks []eth.Block
 	runOn := func(cl *jrpc2.Client, flt *glf.Filter, start, limit uint64) string {
 		var bs []eth.Block
 		return core.Protect(func() string {
@@ -425,6 +522,7 @@ func runC07(e *core.Env) error {
 			if err != nil {
 				return "err"
 			}
+			lastBlocks = bs
 			return "ok " + blocksDigest(bs)
 		})
 		return out, node.Log()
@@ -446,6 +544,7 @@ func runC07(e *core.Env) error {
 					e.Add(core.Case{Impl: honest, Spec: "ok", Key: fmt.Sprintf("c07-honest %s %d %d", plan, start, limit), Tags: []string{"honest-fails"}})
 					continue
 				}
+				e.Add(core.Case{Impl: contentCheck(lastBlocks, chain, flt), Spec: "ok", Key: fmt.Sprintf("c07-content %s %d %d", plan, start, limit), Nontrivial: true, Tags: []string{"content-of-accepted-reply", "class=honest"}})
 				nEx := len(exs)
 				try := func(xi int, ci []int, el []int, tag string) {
 					n := 0
@@ -491,10 +590,23 @@ func runC07(e *core.Env) error {
 					if impl == "err" {
 						verdict = honest // an error is always acceptable
 					}
+					want := honest
+					if tag == "double" {
+						verdict, want = sortLogs(verdict), sortLogs(honest)
+					}
+					if tag == "reorder-items" {
+						// the items are the node's own, only their order differs: the order in which logs end up
+						// attached is not part of the result; WHERE each item sits and what it carries is
+						verdict, want = sortLogs(verdict), sortLogs(honest)
+						if impl != "err" {
+							e.Add(core.Case{Impl: contentCheck(lastBlocks, chain, flt), Spec: "ok", Key: fmt.Sprintf("c07-content %s %d %d %d %v", plan, start, limit, xi, el), Nontrivial: true, Tags: []string{"content-of-accepted-reply", "class=" + tag},
+								Detail: map[string]any{"plan": plan, "start": start, "limit": limit, "exchange": xi, "class": tag, "element": el}})
+						}
+					}
 					e.Add(core.Case{Op: fmt.Sprintf("rpcget %s %d %d %s", plan, start, limit, strings.Join(ax, " ")), Impl: impl, Nontrivial: true,
 						Tags: []string{"corrupt", "plan=" + plan, "class=" + tag, "impl:" + strings.SplitN(impl, " ", 2)[0]},
 						Key:  fmt.Sprintf("c07 %s %d %d %d %v %v", plan, start, limit, xi, ci, el)})
-					e.Add(core.Case{Impl: verdict, Spec: honest, Key: fmt.Sprintf("c07-o %s %d %d %d %v %v", plan, start, limit, xi, ci, el), Tags: []string{"acceptable-check"},
+					e.Add(core.Case{Impl: verdict, Spec: want, Key: fmt.Sprintf("c07-o %s %d %d %d %v %v", plan, start, limit, xi, ci, el), Tags: []string{"acceptable-check"},
 						Detail: map[string]any{"plan": plan, "start": start, "limit": limit, "exchange": xi, "class": tag, "element": el, "exchanges_sent": ax}})
 				}
 				for xi := 0; xi < nEx; xi++ {
@@ -566,7 +678,16 @@ func runC07(e *core.Env) error {
 		nd.Close()
 	}
 	// Latest / Hash on null, error, failure
-	for _, c := range []int{0, 1, 10, 11, 12} {
+	byName := func(name string) int {
+		for i := range corruptions {
+			if corruptions[i].name == name {
+				return i
+			}
+		}
+		panic("no corruption class " + name)
+	}
+	for _, cn := range []string{"error-member", "error-member-positive-code", "error-member-next-to-result", "null-result", "status-500", "truncated-body", "drop-connection"} {
+		c := byName(cn)
 		for _, which := range []string{"latest", "hash"} {
 			node.SetAfter(func(ex *simnode.Exchange) { corruptions[c].apply(ex, 0, r) })
 			cl := jrpc2.New(url)
